@@ -44,7 +44,16 @@ def checkScenarioCore (evs : List Ev) : List String × Nat := Id.run do
       let mut triggers : List (Nat × String) := []
       for c in conns do
         let ccbs := cbsForConn segs conns c
-        let v := checkConn cfg c ccbs allowLocal
+        -- was the FSM of this connection free to react for a full second before it was stopped? (everything the remote sent
+        -- was sent more than 1 s before the final NOTIFICATION / the stop; no plugin callback of the peer ran in between; the
+        -- remote never stopped reading; no schedule point was held)
+        let tLastSend := c.sends.foldl (fun m (_, t, _) => max m t) 0
+        let tFinal := match ((outboundTimed c).filter fun (_, ty, _) => ty == 3).getLast? with
+          | some (t, _, _) => min t tObsEnd | none => tObsEnd
+        let busyCb := cbs.any fun cb => cb.tExit ≥ tLastSend && cb.tEnter ≤ tFinal
+        let gated := evs.any fun e => e.ev == "pt.reached" || e.ev == "pt.hold"
+        let prompt := !c.sends.isEmpty && tFinal > tLastSend + 1000 * ms && !busyCb && c.pauses.isEmpty && !gated
+        let v := checkConn cfg c ccbs allowLocal prompt
         fails := fails ++ v.fails.map fun f => s!"{f} [{p} {c.id}]"
         fails := fails ++ (monitorHold cfg c ccbs tObsEnd).map fun f => s!"{f} [{p} {c.id}]"
         -- damping triggers seen on the wire: a NOTIFICATION other than Cease, sent or (consumed) received
@@ -134,7 +143,9 @@ def checkScenarioCore (evs : List Ev) : List String × Nat := Id.run do
                 !((c.endSeq.map (fun q => decide (q < sc))).getD false)).getLast?
               match cand with
               | some c =>
-                if !sentNotifCode c 6 then
+                -- (a session that was ending on its own account at that moment — the handler / OnOpenMessage about to refuse —
+                -- ends with that NOTIFICATION; no Cease is owed on top of it)
+                if !sentNotifCode c 6 && !sentAnyNotif c then
                   fails := fails ++ [s!"C10 connection {c.id} of {p} was in {lt.arg 2} when the stop was requested but did not receive a Cease NOTIFICATION before being closed"]
               | none => pure ()
           | none => pure ()
